@@ -10,7 +10,7 @@ use crate::{
   blockgen::GenCfg,
   chainbuild::{BuiltChain, build_chain},
   ctx::Ctx,
-  dump::{Dump, diff, differing_tables, masked_dump},
+  dump::{Dump, diff, differing_tables, duplicated_coinbase_txids, masked_dump, only_displaced_duplicate_rows},
   hooks::Hooks,
   idx::IndexCfg,
   node::Node,
@@ -235,6 +235,10 @@ pub fn run(ctx: &Ctx, rep: &mut Report) {
     let (gencfg, n_blocks, base) = chain_for(&mut rng, ctx.thorough());
     let chain = build_chain(&mut rng, Network::Regtest, &gencfg, n_blocks);
     let replay = ctx.replay_info(case);
+    let dup_txids = duplicated_coinbase_txids(&chain.blocks);
+    if !dup_txids.is_empty() {
+      rep.count("chains_with_duplicate_txids");
+    }
     let dir = std::path::PathBuf::from(format!("{scratch}/c12-{case}"));
     // reference: every block, commit interval 1, defaults otherwise
     let reference_schedule = Schedule { commit_interval: 1, chunks: vec![1; chain.blocks.len()], reopen_permille: 0, savepoint_interval: 10, max_savepoints: 2, threads: 1, delay_ms: 0 };
@@ -276,8 +280,14 @@ pub fn run(ctx: &Ctx, rep: &mut Report) {
           }
           if o.dump != reference.dump {
             let tables = differing_tables(&reference.dump, &o.dump);
+            let signature = if only_displaced_duplicate_rows(&reference.dump, &o.dump, &dup_txids) {
+              rep.count("schedules_differing_only_in_displaced_duplicate_entries");
+              "C12/dump-differs/displaced-duplicate-txid-entry".to_string()
+            } else {
+              format!("C12/dump-differs/{}", tables.join("+"))
+            };
             rep.violation(
-              &format!("C12/dump-differs/{}", tables.join("+")),
+              &signature,
               format!("schedule {} vs every-block/interval-1 on a chain of {} blocks ({}): {}", schedule.label(), chain.blocks.len(), base.label(), diff(&reference.dump, &o.dump, "reference", "schedule")),
               rp,
             );
